@@ -479,7 +479,8 @@ func (h *harness) doCall(c, ht int) bool {
 	*cs = callerState{phase: "running", height: ht, cancel: cancel}
 	h.emit("call", "c", c, "h", ht)
 	h.mon.onCall(h, c, ht)
-	av, hdr, ep := h.avail, h.fix.hdr[ht], h.epoch
+	hc := *h.fix.hdr[ht] // every caller holds its own header object, as callers in the node do
+	av, hdr, ep := h.avail, &hc, h.epoch
 	h.wg.Add(1)
 	go func() {
 		defer h.wg.Done()
